@@ -7,9 +7,11 @@ sets=json.load(open('/verif/rules/p7_sets.json'))
 REASONS=json.load(open('/verif/rules/p7_reasons.json'))   # list of [fn-substring, kind-substring, reason]
 aud={}
 missing=[]
-for prop,(prefs,excl) in sets.items():
+for prop,spec in sets.items():
+    prefs,excl=spec[0],spec[1]; contains=spec[2] if len(spec)>2 else []
     for b in sorted(F.bodies.values(),key=lambda x:x.fn):
-        if not b.focus or not b.fn.lstrip('<').startswith(tuple(prefs)) or any(e in b.fn for e in excl): continue
+        if not b.focus or any(e in b.fn for e in excl): continue
+        if not (b.fn.lstrip('<').startswith(tuple(prefs)) or any(c in b.fn for c in contains)): continue
         ss=p7.sites_of(b)
         lp=[s for s in ss if s.kind=='panic' and p7.discharge(F,s) is None]
         keys=[s.key() for s in ss if s.kind!='panic' and p7.discharge(F,s) is None]
